@@ -33,8 +33,13 @@ def gen(rng, count, sizes, nmaxs):
         if rng.random() < 0.3:
             prof = [f32(x - 0.3) for x in prof]       # signed profiles too
         cid = "q%d" % k
-        recs.append(dict(id=cid, n=n, nb=nb, nmax=nmax, spacing=spacing, buckets=buckets, z=z, prof=prof, single=single,
-                         optext=E.efcase(cid, n, nb, nmax, spacing, buckets, z, [prof], ["P0", "w", "C", "c"])))
+        # every third case: position and energy axes with different cell sizes (the spectrum is normalised with the
+        # POSITION cell size squared, the wake with the energy cell size)
+        box = None
+        if k % 3 == 1:
+            box = [f32(rng.choice([-6.0, -8.0])), f32(rng.choice([6.0, 5.0])), f32(rng.choice([-12.0, -4.0])), f32(rng.choice([12.0, 3.0]))]
+        recs.append(dict(id=cid, n=n, nb=nb, nmax=nmax, spacing=spacing, buckets=buckets, z=z, prof=prof, single=single, box=box,
+                         optext=E.efcase(cid, n, nb, nmax, spacing, buckets, z, [prof], ["P0", "w", "C", "c"], box=box)))
     return recs
 
 
@@ -65,7 +70,7 @@ def oracle(rec, A):
         padded = np.zeros(nmax)
         padded[:n] = rho
         F = np.fft.fft(padded)
-        delta = float(f32(12.0 / (n - 1)))
+        delta = float(f32(12.0 / (n - 1))) if not rec.get("box") else float(f32((f32(float(rec["box"][1]) - float(rec["box"][0]))) / (n - 1)))
         df = float(f32(f32(1.0 / f32(delta)) / (nmax - 1)))
         renorm = float(f32(delta * delta))
         lhs = powr[0] / (df * renorm)
